@@ -491,3 +491,111 @@ def _flow():
                 f"def {nm}ObjectsX : List String := [{', '.join(lean_str(x) for x in sorted(used['X']))}]",
                 f"def {nm}ObjectsY : List String := [{', '.join(lean_str(x) for x in sorted(used['Y']))}]"]
     return "\n".join(out) + "\n"
+
+
+# ------------------------------------------------------------------------------------------------- more data-flow facts
+def _stmts(fn):
+    return [ast.unparse(s) for s in fn.body if not (isinstance(s, ast.Expr) and isinstance(s.value, ast.Constant))]
+
+
+def _self_writes(fn):
+    """attributes of `self` assigned anywhere in the function (incl. tuple targets)"""
+    out = set()
+    for n in ast.walk(fn):
+        tg = []
+        if isinstance(n, ast.Assign):
+            tg = n.targets
+        elif isinstance(n, (ast.AnnAssign, ast.AugAssign)):
+            tg = [n.target]
+        for t in tg:
+            for e in ast.walk(t):
+                if isinstance(e, ast.Attribute) and isinstance(e.value, ast.Name) and e.value.id == "self":
+                    out.add("self." + e.attr)
+    return sorted(out)
+
+
+@target("flowFacts2", "Facts", ["C04", "C05", "C07", "C08", "C10", "C12", "C14", "C17", "C20", "C03", "C06"])
+def _flow2():
+    out = []
+    # -- Scaler: user weights are used as given
+    src, tree = load("preprocessing/scaler.py")
+    fn = find_func(tree, "Scaler._process_weights")
+    rets = [ast.unparse(n.value) for n in ast.walk(fn) if isinstance(n, ast.Return)]
+    asg = sorted((ast.unparse(n.target), ast.unparse(n.value)) for n in ast.walk(fn) if isinstance(n, ast.AnnAssign))
+    ok = rets == ["wghts"] and asg == [("wghts", "feature_ones_like(X, self.feature_dims)"), ("wghts", "weights")]
+    out += [f"/-- {header('preprocessing/scaler.py', 'Scaler._process_weights', src, fn)}: the user's weights are stored unchanged (ones when absent) -/",
+            f"def scalerWeightsUsedAsGiven : Bool := {'true' if ok else 'false'}"]
+    # -- PCA transformer: bodies of the four maps
+    src, tree = load("preprocessing/pca.py")
+    for meth, nm in (("PCA.transform", "pcaTransformBody"), ("PCA.inverse_transform_components", "pcaInverseCompsBody"), ("PCA.transform_components", "pcaTransformCompsBody")):
+        fn = find_func(tree, meth)
+        ifs = [s for s in fn.body if isinstance(s, ast.If) and ast.unparse(s.test) == "self.use_pca"]
+        if len(ifs) != 1:
+            raise TranslationError(meth + ": `if self.use_pca` not found")
+        body = [ast.unparse(s) for s in ifs[0].body]
+        out += [f"/-- {header('preprocessing/pca.py', meth, src, fn)}: statements of the `use_pca` branch -/",
+                f"def {nm} : List String := [{', '.join(lean_str(x) for x in body)}]"]
+    # -- Sanitizer.transform writes nothing but the (computed) validity mask
+    src, tree = load("preprocessing/sanitizer.py")
+    fn = find_func(tree, "Sanitizer.transform")
+    out += [f"/-- {header('preprocessing/sanitizer.py', 'Sanitizer.transform', src, fn)}: attributes of the fitted object assigned during transform -/",
+            f"def sanitizerTransformWrites : List String := [{', '.join(lean_str(x) for x in _self_writes(fn))}]"]
+    # -- cross-set base: whitener construction, alpha handling, normalized forwarding, dropped-sample check
+    path = "cross/base_model_cross_set.py"
+    src, tree = load(path)
+    init = find_func(tree, "BaseModelCrossSet.__init__")
+    wh = [c for c in ast.walk(init) if isinstance(c, ast.Call) and ast.unparse(c.func) == "Whitener"]
+    if len(wh) != 2:
+        raise TranslationError("two Whitener(...) constructions expected")
+    out += [f"/-- {header(path, 'BaseModelCrossSet.__init__', src, init)}: arguments of the two whiteners -/",
+            f"def crossWhitener1 : List (String × String) := {lean_pairs(kwargs_of(wh[0]))}",
+            f"def crossWhitener2 : List (String × String) := {lean_pairs(kwargs_of(wh[1]))}"]
+    alpha_asg = [ast.unparse(n.value) for n in ast.walk(init) if isinstance(n, ast.Assign) and ast.unparse(n.targets[0]) == "alpha"]
+    out += ["/-- every assignment to `alpha` before it reaches the whiteners (no clipping: a negative alpha must reach the Whitener's check) -/",
+            f"def crossAlphaAssignments : List String := [{', '.join(lean_str(x) for x in alpha_asg)}]"]
+    tf = find_func(tree, "BaseModelCrossSet.transform")
+    calls = [c for c in ast.walk(tf) if isinstance(c, ast.Call) and ast.unparse(c.func) == "self._transform_algorithm"]
+    out += [f"/-- {header(path, 'BaseModelCrossSet.transform', src, tf)}: the call of the algorithm -/",
+            f"def crossTransformAlgorithmCall : String := {lean_str(ast.unparse(calls[0]) if len(calls) == 1 else '<missing>')}"]
+    chk = find_func(tree, "BaseModelCrossSet._check_dropped_samples_match")
+    conds = [ast.unparse(s.test) for s in chk.body if isinstance(s, ast.If)]
+    out += [f"/-- {header(path, 'BaseModelCrossSet._check_dropped_samples_match', src, chk)}: condition under which fields with differently placed missing samples are refused -/",
+            f"def crossDroppedSamplesCondition : List String := [{', '.join(lean_str(x) for x in conds)}]"]
+    # -- EOF inverse: components are selected by the scores' mode labels (unknown labels raise)
+    src, tree = load("single/eof.py")
+    fn = find_func(tree, "EOF._inverse_transform_algorithm")
+    comps = [ast.unparse(n.value) for n in ast.walk(fn) if isinstance(n, ast.Assign) and ast.unparse(n.targets[0]) == "comps"]
+    out += [f"/-- {header('single/eof.py', 'EOF._inverse_transform_algorithm', src, fn)}: how the components are picked -/",
+            f"def eofInverseCompsExpr : List String := [{', '.join(lean_str(x) for x in comps)}]"]
+    # -- input data is stored with allow_compute=False everywhere
+    sites = []
+    for path in ("single/eof.py", "single/eeof.py", "single/eof_rotator.py", "single/pop.py", "single/opa.py", "single/sparse_pca.py", "cross/cpcca.py",
+                 "cross/cpcca_rotator.py"):
+        src, tree = load(path)
+        for c in ast.walk(tree):
+            if isinstance(c, ast.Call) and ast.unparse(c.func).endswith("data.add"):
+                txt = ast.unparse(c)
+                args = [ast.unparse(a) for a in c.args] + [f"{k.arg}={ast.unparse(k.value)}" for k in c.keywords]
+                names = [a for a in args if "input_data" in a and (a.startswith("'") or a.startswith("name="))]
+                if names:
+                    sites.append((path + ":" + names[0].replace("name=", "").strip("'"), "allow_compute=False" in txt.replace(" ", "")))
+    if len(sites) < 8:
+        raise TranslationError("input_data registrations not found: " + str(sites))
+    out += ["/-- every registration of an `input_data*` entry in a DataContainer, and whether it is excluded from compute() -/",
+            "def inputDataRegistrations : List (String × Bool) := [" + ", ".join(f"({lean_str(a)}, {'true' if b else 'false'})" for a, b in sorted(sites)) + "]"]
+    # -- bootstrapper: member scores are the projection of the ORIGINAL samples
+    src, tree = load("validation/bootstrapper.py")
+    fn = find_func(tree, "EOFBootstrapper.fit")
+    sc = [ast.unparse(n.value) for n in ast.walk(fn) if isinstance(n, ast.Assign) and ast.unparse(n.targets[0]) == "scores"]
+    out += [f"/-- {header('validation/bootstrapper.py', 'EOFBootstrapper.fit', src, fn)}: where a member's scores come from -/",
+            f"def bootstrapMemberScoresExpr : List String := [{', '.join(lean_str(x) for x in sc)}]"]
+    # -- EOFRotator: the model's own arrays are not modified in place
+    src, tree = load("single/eof_rotator.py")
+    fn = find_func(tree, "EOFRotator._fit_algorithm")
+    aug = [ast.unparse(n) for n in ast.walk(fn) if isinstance(n, ast.AugAssign)]
+    src2, tree2 = load("cross/cpcca_rotator.py")
+    fn2 = find_func(tree2, "CPCCARotator._fit_algorithm")
+    aug += [ast.unparse(n) for n in ast.walk(fn2) if isinstance(n, ast.AugAssign)]
+    out += ["/-- in-place (augmented) assignments inside the rotators' fit (views of the model's arrays must not be written) -/",
+            f"def rotatorFitInPlaceOps : List String := [{', '.join(lean_str(x) for x in aug)}]"]
+    return "\n".join(out) + "\n"
